@@ -69,6 +69,7 @@ func (p *Path) streamFor(v Value) *Obj {
 	n := p.SymInt("len("+name+")", 63, false)
 	o.Segs = []Seg{{Blob: name, Len: n.Lin}}
 	o.Pos = LConst(0)
+	o.Lazy = true
 	p.Sinks["stream:"+name] = o
 	return o
 }
@@ -91,13 +92,17 @@ func (p *Path) sinkFor(v Value) *Obj {
 
 // take consumes n bytes from a stream.
 func (p *Path) take(st *Obj, n *Lin) ([]Seg, bool) {
-	segs, ok := p.window(st.Segs, LConst(0), n)
-	if !ok {
-		return nil, false
-	}
 	total := totalLen(st.Segs)
 	if !p.Prove(total.Sub(n)) {
-		p.note("stream %s: %s bytes requested, %s available (success assumed)", st.Name, n, total)
+		if !st.Lazy {
+			p.note("stream %s: %s bytes requested, %s available", st.Name, n, total)
+			return nil, false
+		}
+		// an open-ended symbolic stream: follow the success path of the read
+		p.addCons(total.Sub(n))
+	}
+	segs, ok := p.window(st.Segs, LConst(0), n)
+	if !ok {
 		return nil, false
 	}
 	rest, ok := p.window(st.Segs, n, total.Sub(n))
